@@ -105,4 +105,231 @@ example :
     let r := excludeMetricName (aggBySrc ["instance"] (selSrc [])) true ["instance"]
     canJoin true ["job"] l r = false ∧ canJoin false [] l r = false ∧ canJoin false ["job"] l r = true := by decide
 
+/-! ## the must-analysis behind `MustHave`: on the fragment where labels only disappear, a label the source can have is
+on every series, when every stored series carries every label of the universe -/
+
+theorem canHave_excludeLabel_inv {s : Src} {ns : LS} {n : String} (h : CanHave (excludeLabel s ns) n) : n ∉ ns ∧ CanHave s n := by
+  simp only [CanHave, excludeLabel, mem_removeFrom, mem_appendTo] at h
+  obtain ⟨hex, hin⟩ := h
+  have hn : n ∉ ns := fun hh => hex (Or.inr hh)
+  refine ⟨hn, fun hh => hex (Or.inl hh), ?_⟩
+  rcases hin with h1 | h1 | h1
+  · exact Or.inl h1.1
+  · exact Or.inr (Or.inl h1.1)
+  · exact Or.inr (Or.inr h1)
+
+theorem canHave_includeLabel_inv {s : Src} {ns : LS} {n : String} (h : CanHave (includeLabel s ns) n) : n ∈ ns ∨ CanHave s n := by
+  simp only [CanHave, includeLabel, mem_removeFrom, mem_appendTo] at h
+  obtain ⟨hex, hin⟩ := h
+  by_cases hn : n ∈ ns
+  · exact Or.inl hn
+  · right
+    refine ⟨fun hh => hex ⟨hh, hn⟩, ?_⟩
+    rcases hin with (h1 | h1) | h1 | h1
+    · exact Or.inl h1
+    · exact absurd h1 hn
+    · exact Or.inr (Or.inl h1)
+    · exact Or.inr (Or.inr h1)
+
+theorem canHave_guaranteeLabel_inv {s : Src} {ns : LS} {n : String} (h : CanHave (guaranteeLabel s ns) n) : n ∈ ns ∨ CanHave s n := by
+  simp only [CanHave, guaranteeLabel, mem_removeFrom, mem_appendTo] at h
+  obtain ⟨hex, hin⟩ := h
+  by_cases hn : n ∈ ns
+  · exact Or.inl hn
+  · right
+    refine ⟨fun hh => hex ⟨hh, hn⟩, ?_⟩
+    rcases hin with h1 | (h1 | h1) | h1
+    · exact Or.inl h1
+    · exact Or.inr (Or.inl h1)
+    · exact absurd h1 hn
+    · exact Or.inr (Or.inr h1)
+
+theorem canHave_includeMatching_inv (ns : LS) : ∀ {s : Src} {n : String}, CanHave (includeMatching s ns) n → CanHave s n := by
+  unfold includeMatching
+  induction ns with
+  | nil => intro s n h; exact h
+  | cons x xs ih =>
+    intro s n h
+    simp only [List.foldl_cons] at h
+    by_cases hc : canHave s x = true
+    · rw [if_pos hc] at h
+      rcases canHave_includeLabel_inv (ih h) with hx | hx
+      · have : n = x := by simpa using hx
+        subst this; exact (canHave_iff s n).mp hc
+      · exact hx
+    · rw [if_neg hc] at h; exact ih h
+
+theorem canHave_reguarantee_inv {s : Src} {n : String} (h : CanHave (reguarantee s) n) : CanHave s n := by
+  unfold reguarantee at h
+  generalize s.selGuar = ns at h
+  induction ns generalizing s with
+  | nil => exact h
+  | cons x xs ih =>
+    simp only [List.foldl_cons] at h
+    by_cases hc : canHave s x = true
+    · rw [if_pos hc] at h
+      rcases canHave_guaranteeLabel_inv (ih h) with hx | hx
+      · have : n = x := by simpa using hx
+        subst this; exact (canHave_iff s n).mp hc
+      · exact hx
+    · rw [if_neg hc] at h; exact ih h
+
+theorem canHave_aggBySrc_inv {s : Src} {g : LS} {n : String} (h : CanHave (aggBySrc g s) n) : n ∈ g ∧ CanHave s n := by
+  unfold aggBySrc at h
+  by_cases he : g.isEmpty = true
+  · rw [if_pos he] at h
+    simp [CanHave] at h
+  · rw [if_neg he] at h
+    by_cases hf : s.fixed = true
+    · rw [if_pos hf] at h
+      simp only [CanHave, restrictTo, List.mem_filter] at h
+      obtain ⟨hex, hin⟩ := h
+      rcases hin with h1 | h1 | h1
+      · exact ⟨by simpa using h1.2, hex, Or.inl h1.1⟩
+      · exact ⟨by simpa using h1.2, hex, Or.inr (Or.inl h1.1)⟩
+      · simp at h1
+    · rw [if_neg hf] at h
+      have hfix : s.fixed = false := by cases hh : s.fixed with | false => rfl | true => exact absurd hh hf
+      have hexcl : (maybeInclude s g).excl = s.excl := by
+        unfold maybeInclude; split <;> rfl
+      simp only [CanHave, restrictTo, List.mem_filter] at h
+      obtain ⟨hex, hin⟩ := h
+      rw [hexcl] at hex
+      rcases hin with h1 | h1 | h1
+      · exact ⟨by simpa using h1.2, hex, Or.inr (Or.inr hfix)⟩
+      · exact ⟨by simpa using h1.2, hex, Or.inr (Or.inr hfix)⟩
+      · simp at h1
+
+theorem canHave_excludeMetricName_inv {s : Src} {b : Bool} {g : LS} {n : String} (h : CanHave (excludeMetricName s b g) n) : CanHave s n := by
+  unfold excludeMetricName at h
+  split at h
+  · exact h
+  · exact (canHave_excludeLabel_inv h).2
+
+theorem map_eq_singleton {α β : Type} {f : α → β} {l : List α} {y : β} (h : l.map f = [y]) : ∃ x, l = [x] ∧ f x = y := by
+  cases l with
+  | nil => simp at h
+  | cons x xs =>
+    cases xs with
+    | nil => simp at h; exact ⟨x, rfl, h⟩
+    | cons _ _ => simp at h
+
+theorem mem_wOWN_keeps {L : List LS} {ls : LS} (h : ls ∈ withOrWithoutName L) : ∃ ls' ∈ L, ∀ n, n ≠ nameL → n ∈ ls' → n ∈ ls := by
+  simp only [withOrWithoutName, List.mem_append, List.mem_map] at h
+  rcases h with h | ⟨t, ht, rfl⟩
+  · exact ⟨ls, h, fun _ _ hn => hn⟩
+  · exact ⟨t, ht, fun n hne hn => by simp [dropName, hn, hne]⟩
+
+/-- **must-analysis**: under the data hypothesis, on the label-removing fragment, what the single source "can have"
+(other than the metric name) is on every returned series -/
+theorem must_have (U : LS) : ∀ (e : Expr), frag12 e = true → ∀ s, analyse e = [s] → ∀ ls ∈ full U e,
+    ∀ n ∈ U, n ≠ nameL → CanHave s n → n ∈ ls := by
+  intro e
+  induction e with
+  | sel ms =>
+    intro _ s hs ls hls n hn _ _
+    simp only [full] at hls
+    split at hls
+    · simp at hls
+    · have : ls = nameL :: U := by simpa using hls
+      subst this; exact List.mem_cons_of_mem _ hn
+  | aggBy g e ih =>
+    intro hf s hs ls hls n hn hne hc
+    simp only [analyse] at hs
+    obtain ⟨s0, hs0, rfl⟩ := map_eq_singleton hs
+    simp only [full, List.mem_map] at hls
+    obtain ⟨ls', hls', rfl⟩ := hls
+    have h1 := canHave_aggBySrc_inv (canHave_excludeMetricName_inv hc)
+    exact List.mem_filter.mpr ⟨ih (by simpa [frag12] using hf) s0 hs0 ls' hls' n hn hne h1.2, by simpa using h1.1⟩
+  | aggWithout g e ih =>
+    intro hf s hs ls hls n hn hne hc
+    simp only [analyse] at hs
+    obtain ⟨s0, hs0, rfl⟩ := map_eq_singleton hs
+    simp only [full, List.mem_map] at hls
+    obtain ⟨ls', hls', rfl⟩ := hls
+    have h1 := canHave_excludeLabel_inv (canHave_excludeMetricName_inv hc)
+    exact List.mem_filter.mpr ⟨ih (by simpa [frag12] using hf) s0 hs0 ls' hls' n hn hne h1.2, by simp [h1.1, hne]⟩
+  | topk e ih =>
+    intro hf s hs ls hls n hn hne hc
+    exact ih (by simpa [frag12] using hf) s (by simpa [analyse] using hs) ls (by simpa [full] using hls) n hn hne hc
+  | func e ih =>
+    intro hf s hs ls hls n hn hne hc
+    simp only [analyse] at hs
+    obtain ⟨s0, hs0, rfl⟩ := map_eq_singleton hs
+    obtain ⟨ls', hls', hkeep⟩ := mem_wOWN_keeps (by simpa [full] using hls)
+    exact hkeep n hne (ih (by simpa [frag12] using hf) s0 hs0 ls' hls' n hn hne (canHave_reguarantee_inv hc))
+  | binOn m l r ihl _ =>
+    intro hf s hs ls hls n hn hne hc
+    simp only [analyse] at hs
+    obtain ⟨s0, hs0, rfl⟩ := map_eq_singleton hs
+    obtain ⟨ls', hls', hkeep⟩ := mem_wOWN_keeps (by simpa [full] using hls)
+    simp only [List.mem_map] at hls'
+    obtain ⟨a, ha, rfl⟩ := hls'
+    -- the restricted source can have n only if n is an on() label the matched source could have
+    simp only [CanHave, restrictTo, List.mem_filter] at hc
+    obtain ⟨hex, hin⟩ := hc
+    have hfix : (includeMatching s0 m).fixed = s0.fixed := includeMatching_fixed s0 m
+    have hnm : n ∈ m ∧ CanHave (includeMatching s0 m) n := by
+      rcases hin with h1 | h1 | h1
+      · exact ⟨by simpa using h1.2, hex, Or.inl h1.1⟩
+      · exact ⟨by simpa using h1.2, hex, Or.inr (Or.inl h1.1)⟩
+      · simp at h1
+    apply hkeep n hne
+    exact List.mem_filter.mpr ⟨ihl (by simpa [frag12] using hf) s0 hs0 a ha n hn hne (canHave_includeMatching_inv m hnm.2), by simpa using hnm.1⟩
+  | binIgn m l r ihl _ =>
+    intro hf s hs ls hls n hn hne hc
+    simp only [analyse] at hs
+    obtain ⟨s0, hs0, rfl⟩ := map_eq_singleton hs
+    obtain ⟨ls', hls', hkeep⟩ := mem_wOWN_keeps (by simpa [full] using hls)
+    simp only [List.mem_map] at hls'
+    obtain ⟨a, ha, rfl⟩ := hls'
+    have h1 := canHave_excludeLabel_inv hc
+    apply hkeep n hne
+    exact List.mem_filter.mpr ⟨ihl (by simpa [frag12] using hf) s0 hs0 a ha n hn hne h1.2, by simp [h1.1]⟩
+  | setAnd on m l r ihl _ =>
+    intro hf s hs ls hls n hn hne hc
+    simp only [analyse] at hs
+    obtain ⟨s0, hs0, rfl⟩ := map_eq_singleton hs
+    have hc0 : CanHave s0 n := by
+      cases on with
+      | true => exact canHave_includeMatching_inv m hc
+      | false => exact hc
+    exact ihl (by simpa [frag12] using hf) s0 hs0 ls (by simpa [full] using hls) n hn hne hc0
+  | withScalar e ih =>
+    intro hf s hs ls hls n hn hne hc
+    obtain ⟨ls', hls', hkeep⟩ := mem_wOWN_keeps (by simpa [full] using hls)
+    exact hkeep n hne (ih (by simpa [frag12] using hf) s (by simpa [analyse] using hs) ls' hls' n hn hne hc)
+  | countValuesBy g v e _ => intro hf; simp [frag12] at hf
+  | labelReplace d e _ => intro hf; simp [frag12] at hf
+  | absent ms => intro hf; simp [frag12] at hf
+  | vec => intro hf; simp [frag12] at hf
+  | groupLeft o m i l r _ _ => intro hf; simp [frag12] at hf
+  | groupRight o m i l r _ _ => intro hf; simp [frag12] at hf
+  | setOr o m l r _ _ => intro hf; simp [frag12] at hf
+
+/-- **C12 for `on(...)` joins**: if the left operand is in the label-removing fragment, every stored series carries
+every label of `U`, and `canJoin` rejects the pair of sources, then no series the left operand returns can be matched
+with any series the right operand can return — the operand reported as "never matched" is never matched. -/
+theorem C12_on_join_never_matches (U m : LS) (e1 e2 : Expr) (hf1 : frag12 e1 = true) (hw2 : wf e2 = true)
+    (s1 s2 : Src) (h1 : analyse e1 = [s1]) (h2 : analyse e2 = [s2])
+    (hm : ∀ n ∈ m, n ∈ U ∧ n ≠ nameL) (hc : canJoin true m s1 s2 = false) :
+    ∀ a ∈ full U e1, ∀ b ∈ possible U e2, ¬ sameNames (signature true m a) (signature true m b) := by
+  intro a ha b hb
+  obtain ⟨s, hs, hacc⟩ := analyse_sound U e2 hw2 b hb
+  rw [h2] at hs
+  have : s = s2 := by simpa using hs
+  subst this
+  refine canJoin_false_no_match true m s1 s a b hc ?_ hacc (by simp)
+  intro n hcn hcond
+  have hnm : n ∈ m := by simpa using hcond
+  exact must_have U e1 hf1 s1 h1 a ha n (hm n hnm).1 (hm n hnm).2 hcn
+
+/-- non-vacuity: `m1{job="x"} * on(job) sum by (instance) (m2)` over labels job, instance -/
+example :
+    let e1 := Expr.sel [{ label := "job", kind := .eq }]
+    let e2 := Expr.aggBy ["instance"] (.sel [])
+    frag12 e1 = true ∧ (analyse e1).length = 1 ∧ (analyse e2).length = 1 ∧
+    (match analyse e1, analyse e2 with | [a], [b] => canJoin true ["job"] a b | _, _ => true) = false ∧
+    (full ["job", "instance"] e1).length = 1 := by decide
+
 end Pint.Props.C12
